@@ -227,7 +227,7 @@ func TestReleaseArrival(t *testing.T) {
 					names := []string{"h", "a1", "a2"}
 					c := newController()
 					s := newScenario(t, c, names)
-					s.settle = func() { s.settleRealTime(3*time.Millisecond, 300*time.Millisecond) }
+					s.settle = func() { s.settleRealTime(12*time.Millisecond, 600*time.Millisecond) }
 					s.noClock = true
 					c.emit = s.ev
 					limiter.VerifPoint = nil
@@ -435,7 +435,7 @@ func TestCancelArrival(t *testing.T) {
 					names = append(names, "a1", "a2")
 					c := newController()
 					s := newScenario(t, c, names)
-					s.settle = func() { s.settleRealTime(3*time.Millisecond, 300*time.Millisecond) }
+					s.settle = func() { s.settleRealTime(12*time.Millisecond, 600*time.Millisecond) }
 					s.noClock = true
 					c.emit = s.ev
 					limiter.VerifPoint = nil
